@@ -387,6 +387,23 @@ end SqlglotModel.ParseGen
 namespace SqlglotModel.ParseGen
 open SqlglotModel.Expr SqlglotModel.Parse SqlglotModel.Gen
 
+/-- blocked set after lifting through the loops of `lvs` -/
+def ladB : List Level → List String → List String
+  | [], B => B
+  | lv :: post, B => levelToks lv ++ ladB post B
+
+/-- an operand of the tightest level is an operand of every looser level of the same ladder -/
+theorem liftLad (tbl : Tables) (w : Which) (lvs : List Level) {B : List String} {e : Expr}
+    (h : Fits tbl (.lad w []) B e) : Fits tbl (.lad w lvs) (ladB lvs B) e := by
+  induction lvs with
+  | nil => exact h
+  | cons lv post ih => exact .ladLift (.spineOperand ih)
+
+/-- an operand of the arithmetic ladder, lifted to the top of the expression grammar -/
+theorem liftTop (tbl : Tables) {B : List String} {e : Expr} (h : Fits tbl (.lad .lower tbl.lower) B e) :
+    Fits tbl (.lad .outer tbl.outer) (ladB tbl.outer (ladB tbl.mid (rangeBlocked tbl ++ B))) e :=
+  liftLad tbl .outer tbl.outer (.baseOuter (liftLad tbl .mid tbl.mid (.baseMid (.rangeLift h))))
+
 /-- S-expression of a complete parse (`none` unless every token was consumed) -/
 def parseSexp (tbl : Tables) (ts : Toks) : Option String :=
   match parse tbl ts with
